@@ -1,7 +1,7 @@
 #!/bin/sh
 # usage: tools/wave_in.sh CNN d   -- import a finished seeding wave for one property, verify both changes, run the check
 p=$1; w=${2:-d}
-case $w in g) L="M N";; f) L="K L";; e) L="I J";; d) L="G H";; c) L="E F";; esac
+case $w in h) L="O P";; g) L="M N";; f) L="K L";; e) L="I J";; d) L="G H";; c) L="E F";; esac
 cd /verif
 python3 tools/import_seeded.py $p $w >/dev/null
 git -C /repo worktree remove --force /tmp/seed${w}_$p 2>/dev/null
